@@ -3,7 +3,10 @@ From V.lib Require Import Base.
 From V.c11 Require Import C11Model.
 Require Import ExtrOcamlBasic.
 Separate Extraction
-  nat track sync_point
+  nat track sync_point fsample trun_in frag_in trex traf_out frag_out
   get_decode_time get_sample_nr_at_time get_cto
   get_segment_starts get_segment_intervals get_segment_intervals_pinned
-  segment_plan segment_plan_pinned.
+  segment_plan segment_plan_pinned
+  resegment fragmentify
+  create_multi add_sample_to_track add_all combine_tracks read_track trun_layout
+  read_trun.
